@@ -267,11 +267,16 @@ func Generate(rng *rand.Rand, i int, thorough bool) *p2prig.Scenario {
 		}
 		return s
 	}
-	if thorough && nPeers > 1 && rng.Intn(30) == 0 {
-		// a non-honest peer stalls (never answers getheaders): needs the 30-45 s stall detection
-		for j := 1; j < nPeers; j++ {
+	if thorough && nPeers > 1 && rng.Intn(30) == 0 && !s.DropNode0AfterSync {
+		// a non-honest peer stalls (never answers getheaders): if the service picks it as its sync peer, nothing moves
+		// until the stall detection (30-45 s) drops it - the verdict waits for that timer. (Not combined with "node 0 goes
+		// away": a peer that never answers cannot be the only one left to follow.)
+		for j := 1; j < nPeers && j < len(s.Nodes); j++ {
 			if s.Nodes[j].Kind == "laggard" {
 				s.Nodes[j].Silent = true
+				if s.SlowConvergeWaitSec < 150 {
+					s.SlowConvergeWaitSec = 150
+				}
 				break
 			}
 		}
